@@ -36,18 +36,20 @@ impl BinaryOperators {
     pub fn new() -> BinaryOperators {
         let mut operators = HashMap::new();
 
-        operators.insert(Operator::Single('.'), BinaryOperator::new(6));
-        operators.insert(Operator::Single('^'), BinaryOperator::new(5));
-        operators.insert(Operator::Single('*'), BinaryOperator::new(5));
-        operators.insert(Operator::Single('/'), BinaryOperator::new(5));
-        operators.insert(Operator::Single('+'), BinaryOperator::new(4));
-        operators.insert(Operator::Single('-'), BinaryOperator::new(4));
-        operators.insert(Operator::Single('<'), BinaryOperator::new(3));
-        operators.insert(Operator::Dual('<', '='), BinaryOperator::new(3));
-        operators.insert(Operator::Single('>'), BinaryOperator::new(3));
-        operators.insert(Operator::Dual('>', '='), BinaryOperator::new(3));
-        operators.insert(Operator::Single('='), BinaryOperator::new(2));
-        operators.insert(Operator::Dual('!', '='), BinaryOperator::new(2));
+        // Standard SQL precedence (see also Parser::get_token_precedence): member access, then cast and
+        // subscript (8), unary minus (7), * / (6), + - (5), comparisons (4), NOT (3), AND (2), OR (1)
+        operators.insert(Operator::Single('.'), BinaryOperator::new(9));
+        operators.insert(Operator::Single('^'), BinaryOperator::new(6));
+        operators.insert(Operator::Single('*'), BinaryOperator::new(6));
+        operators.insert(Operator::Single('/'), BinaryOperator::new(6));
+        operators.insert(Operator::Single('+'), BinaryOperator::new(5));
+        operators.insert(Operator::Single('-'), BinaryOperator::new(5));
+        operators.insert(Operator::Single('<'), BinaryOperator::new(4));
+        operators.insert(Operator::Dual('<', '='), BinaryOperator::new(4));
+        operators.insert(Operator::Single('>'), BinaryOperator::new(4));
+        operators.insert(Operator::Dual('>', '='), BinaryOperator::new(4));
+        operators.insert(Operator::Single('='), BinaryOperator::new(4));
+        operators.insert(Operator::Dual('!', '='), BinaryOperator::new(4));
 
         BinaryOperators {
             operators
